@@ -677,7 +677,7 @@ class ManifestRecursiveLoader:
                 dir_id = (dir_st.st_dev, dir_st.st_ino)
                 # if this directory was already processed for one of its
                 # parents, we're in a loop
-                parent_dir = os.path.dirname(dirpath)
+                parent_dir = os.path.normpath(os.path.dirname(dirpath))
                 parent_dir_ids = directory_ids.get(parent_dir, [])
                 if dir_id in parent_dir_ids:
                     raise ManifestSymlinkLoop(dirpath)
@@ -1072,7 +1072,7 @@ class ManifestRecursiveLoader:
             dir_id = (dir_st.st_dev, dir_st.st_ino)
             # if this directory was already processed for one of its
             # parents, we're in a loop
-            parent_dir = os.path.dirname(dirpath)
+            parent_dir = os.path.normpath(os.path.dirname(dirpath))
             parent_dir_ids = directory_ids.get(parent_dir, [])
             if dir_id in parent_dir_ids:
                 raise ManifestSymlinkLoop(dirpath)
@@ -1198,7 +1198,7 @@ class ManifestRecursiveLoader:
             dir_id = (dir_st.st_dev, dir_st.st_ino)
             # if this directory was already processed for one of its
             # parents, we're in a loop
-            parent_dir = os.path.dirname(dirpath)
+            parent_dir = os.path.normpath(os.path.dirname(dirpath))
             parent_dir_ids = directory_ids.get(parent_dir, [])
             if dir_id in parent_dir_ids:
                 raise ManifestSymlinkLoop(dirpath)
